@@ -10,6 +10,12 @@
 #include <unistd.h>
 #include <ctime>
 #include <chrono>
+#ifdef XSIM_FLAVOUR_cov
+extern "C" int __llvm_profile_write_file(void);
+#define XSIM_PROFILE_FLUSH() __llvm_profile_write_file()
+#else
+#define XSIM_PROFILE_FLUSH() ((void)0)
+#endif
 
 using namespace xs;
 
@@ -146,7 +152,7 @@ static void fatal_cb(const char *oracle, const char *detail) {
     if (g_cur_plan.P("variant")) j.set("variant", g_cur_plan.P("variant"));
     printf("END %llu %s\n", (unsigned long long)g_cur_seed, j.dump().c_str());
     fflush(stdout);
-    _exit(0);
+    XSIM_PROFILE_FLUSH(), _exit(0);
 }
 
 static bool read_file(const std::string &path, std::string &out) {
@@ -215,7 +221,7 @@ int main(int argc, char **argv) {
         collect_tsan(r);
         printf("END %llu %s\n", (unsigned long long)p.seed, r.to_json().dump().c_str());
         fflush(stdout);
-        if (r.stat.count("must_exit")) _exit(r.verdict == "ok" ? 0 : 1);
+        if (r.stat.count("must_exit")) XSIM_PROFILE_FLUSH(), _exit(r.verdict == "ok" ? 0 : 1);
         return r.verdict == "ok" ? 0 : 1;
     }
     if (mode == "run") {
@@ -227,7 +233,7 @@ int main(int argc, char **argv) {
             bool dirty = r.stat.count("must_exit") > 0;
             for (auto &v : r.violations)
                 if (v.oracle.compare(0, 4, "C08.") == 0 || v.oracle.compare(0, 8, "HARNESS.") == 0 || v.oracle.compare(0, 4, "C04.") == 0) dirty = true;
-            if (dirty) { fflush(stdout); _exit(0); }
+            if (dirty) { fflush(stdout); XSIM_PROFILE_FLUSH(), _exit(0); }
         };
         for (uint64_t s = base; s < base + count; s++) {
             if (deadline && real_now_s() >= deadline) break;
@@ -251,7 +257,7 @@ int main(int argc, char **argv) {
                 printf("END %llu %s\n", (unsigned long long)s, j.dump().c_str());
                 fflush(stdout);
                 retire_if_dirty(r);
-            } else if (r.stat.count("must_exit")) _exit(0);
+            } else if (r.stat.count("must_exit")) XSIM_PROFILE_FLUSH(), _exit(0);
             if (!f->variants) continue;
             // fault enumeration: every variant of the reference execution is an explicit plan of its own
             std::vector<Plan> vs;
